@@ -359,7 +359,17 @@ pub fn gen_c15(run: &mut crate::Run, seed: u64, thorough: bool) {
         }
     }
     // ---- (c) Upgrader: requested version x authorisation coverage x migration data x target
-    let versions: Vec<(&str, Vec<u8>)> = vec![("same", b"0.1.0".to_vec()), ("correct", b"0.2.0".to_vec()), ("wrong", b"0.3.0".to_vec())];
+    // requested versions: the old one, the one the new code reports, and wrong ones that sort ABOVE it, BELOW it (between old
+    // and new), as a PREFIX of it and as an extension of it
+    let versions: Vec<(&str, Vec<u8>)> = vec![
+        ("same", b"0.1.0".to_vec()),
+        ("correct", b"0.2.0".to_vec()),
+        ("wrong", b"0.3.0".to_vec()),
+        ("wrong-between", b"0.1.5".to_vec()),
+        ("wrong-prefix", b"0.2".to_vec()),
+        ("wrong-extension", b"0.2.0.1".to_vec()),
+        ("wrong-empty", b"".to_vec()),
+    ];
     let auths: Vec<(&str, String)> = vec![
         ("both", format!("{}:both", owner.tok())),
         ("upgrade-only", format!("{}:up", owner.tok())),
